@@ -46,7 +46,10 @@ EXPLANATION = (
     "get_nodes result is used by position (enumerate / zip / index / range(len)), it reaches that use in the resolver's order: "
     "copies are fine, sorted / np.sort / np.unique / set / reversed / [::-1] / argsort indexing / in-place sort are reported.  R10 update_var (helpers spliced in) writes a node template in place only when it is "
     "a copy made for this node, or when a registry licenses the write (`id(x) in R`) and no object that is handed to a further node "
-    "(read back from a container, given to add_node_template again) can stay registered in R on that path.  NOT decided: that get_nodes enumerates wildcards in declaration "
+    "(read back from a container, given to add_node_template again) can stay registered in R on that path.  R11 run() and the helpers it delegates to cut every requested trajectory out of its "
+    "recording at the computed positions; handing out the columns of ONE recording in request order without indexing is accepted only "
+    "under a guard that shows every key is served by that recording (`... is rec` for all keys) and the positions are 0..n-1; a guard "
+    "that compares sizes only is reported.  NOT decided: that get_nodes enumerates wildcards in declaration "
     "order for every hierarchy (dict insertion order, library guarantee), the numerical values, what the backend does with the index."
 )
 RULE_TEXT = ("R1: one obligation per sink (call of get_nodes/_get_var_idx resolved through the call graph, subscript of the index "
@@ -2246,6 +2249,115 @@ def r10_in_place_write_only_on_unshared(ctx, rid):
                               {"witness": witness}, label=label)
 
 
+# --------------------------------------------------------------------------------------------
+# R11 — the positions computed for the requested variables are applied (or provably the identity on ONE recording)
+# --------------------------------------------------------------------------------------------
+
+def r11_positions_applied(ctx, rid):
+    """get_variable_positions yields, for every requested variable, the positions of its entries inside the backend variable that
+    holds it; run() (and the helpers it delegates to) must cut every trajectory out of THAT variable's recording at THOSE positions.
+    Handing out the columns of one recording in request order without indexing (`zip(keys, rec.T)`, `rec[:, i]` with the running
+    number i) is the same thing only if every requested key is served by that recording and the positions are exactly 0..n-1 in
+    request order; a guard that only compares sizes does not establish either, and a request that mixes variables or orders gets
+    another variable's / node's trajectory under its label."""
+    run = ctx.repo.get_func(REL, f"{CLS}.run")
+    funcs = [run]
+    for t in ctx.cg.callees(run):
+        if getattr(t.module, "rel", None) == REL and t not in funcs and t.name.startswith("_") and not t.name.startswith("__"):
+            funcs.append(t)
+    n = 0
+    for f in funcs:
+        rd = ctx.rd(f)
+        # position mappings: `for k, idx in P.items()` with idx used as a column index `x[:, idx]`
+        mappings = {}
+        for node in walk_shallow(f.node):
+            gens = node.generators if isinstance(node, COMPS) else ([node] if isinstance(node, (ast.For, ast.AsyncFor)) else [])
+            for gnr in gens:
+                it, tg = gnr.iter, gnr.target
+                if isinstance(it, ast.Call) and isinstance(it.func, ast.Attribute) and it.func.attr == "items" and isinstance(it.func.value, ast.Name) \
+                        and isinstance(tg, ast.Tuple) and len(tg.elts) == 2 and isinstance(tg.elts[1], ast.Name):
+                    idx = tg.elts[1].id
+                    scope = node
+                    used = [x for x in ast.walk(scope) if isinstance(x, ast.Subscript) and isinstance(x.slice, ast.Tuple) and len(x.slice.elts) == 2
+                            and isinstance(x.slice.elts[0], ast.Slice) and isinstance(x.slice.elts[1], ast.Name) and x.slice.elts[1].id == idx]
+                    if used:
+                        mappings.setdefault(it.func.value.id, []).append((node, used[0]))
+        if not mappings:
+            continue
+
+        def from_mapping(e, depth=3):
+            """name of the position mapping whose KEYS the expression enumerates (list(P), P.keys(), P, a local bound to one)"""
+            if isinstance(e, ast.Call) and isinstance(e.func, ast.Name) and e.func.id in ("list", "tuple", "sorted") and len(e.args) == 1:
+                return from_mapping(e.args[0], depth)
+            if isinstance(e, ast.Call) and isinstance(e.func, ast.Attribute) and e.func.attr == "keys" and not e.args:
+                return from_mapping(e.func.value, depth)
+            if isinstance(e, ast.Name):
+                if e.id in mappings:
+                    return e.id
+                if depth > 0 and comp_generator_of(e) is None:
+                    for d in rd.defs_reaching(e):
+                        v = assigned_value(d, e.id)
+                        if v is not None:
+                            r = from_mapping(v, depth - 1)
+                            if r:
+                                return r
+            return None
+        for P, sites in sorted(mappings.items()):
+            for node, use in sites:
+                n += 1
+                ctx.ok(rid, f, use, f"the trajectories of `{P}` are cut out of their recordings at the computed positions (`{norm(use)}`)",
+                       label=f"positions of {P} applied: {norm(use)[:60]}")
+        # index-free deliveries
+        for c in ordered(walk_shallow(f.node)):
+            if not (isinstance(c, ast.Call) and isinstance(c.func, ast.Name) and c.func.id == "zip" and len(c.args) == 2):
+                continue
+            K, R = c.args
+            P = from_mapping(K)
+            rec = R.value if isinstance(R, ast.Attribute) and R.attr == "T" else (R.func.value if isinstance(R, ast.Call) and isinstance(R.func, ast.Attribute)
+                                                                                 and R.func.attr == "transpose" else None)
+            if P is None or not isinstance(rec, ast.Name):
+                continue
+            n += 1
+            same_rec = identity = None
+            sizes_only = []
+            for anc in ancestors(c):
+                if isinstance(anc, (ast.FunctionDef, ast.AsyncFunctionDef)):
+                    break
+                if not (isinstance(anc, ast.If) and any(contains(b, c) for b in anc.body)):
+                    continue
+                conj = list(anc.test.values) if isinstance(anc.test, ast.BoolOp) and isinstance(anc.test.op, ast.And) else [anc.test]
+                for t in conj:
+                    txt = ast.unparse(t)
+                    if isinstance(t, ast.Call) and call_name(t) == "all" and t.args and isinstance(t.args[0], (ast.GeneratorExp, ast.ListComp)) \
+                            and any(isinstance(x, ast.Compare) and len(x.ops) == 1 and isinstance(x.ops[0], ast.Is)
+                                    and any(isinstance(s_, ast.Name) and s_.id == rec.id for s_ in [x.left] + x.comparators)
+                                    for x in ast.walk(t.args[0].elt)):
+                        same_rec = t
+                    elif any(isinstance(x, ast.Call) and call_name(x) in ("arange", "range") for x in ast.walk(t)) \
+                            and (isinstance(t, ast.Compare) or (isinstance(t, ast.Call) and call_name(t) in ("array_equal", "all", "allclose"))):
+                        identity = t
+                    elif "shape" in txt or "len(" in txt or "ndim" in txt or "size" in txt:
+                        sizes_only.append(t)
+            label = f"index-free delivery {norm(c)[:60]}"
+            if same_rec is not None and identity is not None:
+                ctx.ok(rid, f, c, f"the columns of `{rec.id}` are handed out in request order only when every key is served by it "
+                                  f"(`{norm(same_rec)[:60]}`) and the positions are 0..n-1 (`{norm(identity)[:60]}`)", label=label)
+            else:
+                missing = []
+                if same_rec is None:
+                    missing.append(f"that every requested key is served by `{rec.id}` (keys of other backend variables get its columns)")
+                if identity is None:
+                    missing.append("that the computed positions are exactly 0..n-1 in request order (another order / a sub-set that happens "
+                                   "to have the same size gets the wrong columns)")
+                ctx.violation(rid, f, c, f"`{norm(c)}` labels the columns of ONE recording with the requested keys without applying the "
+                                         f"positions of `{P}`; the guard "
+                                         + (f"`{' and '.join(norm(x) for x in sizes_only)[:120]}` compares sizes only and " if sizes_only else "")
+                                         + "does not establish " + "; nor ".join(missing)
+                                         + ": a column then carries the trajectory of another variable / node than its label names",
+                              {"guards": [norm(x) for x in sizes_only]}, label=label)
+    ctx.require(n >= 1, f"{rid}: no place found where run() applies the output positions (anchor vanished)")
+
+
 RULES = [
     ("C06-R1", r1_namespaces, 11),     # 22 on the pinned tree; merging duplicated look-ups into helpers lowers the count
     ("C06-R2", r2_label_data_lockstep, 4),
@@ -2257,4 +2369,5 @@ RULES = [
     ("C06-R8", r8_column_index_by_presence, 1),
     ("C06-R9", r9_resolution_order_kept, 2),
     ("C06-R10", r10_in_place_write_only_on_unshared, 1),
+    ("C06-R11", r11_positions_applied, 1),
 ]
